@@ -506,29 +506,67 @@ func ruleC19c(c *Ctx) {
 		c.floor(rule, "'return true' exits of authenticate", nTrue, 3)
 		c.floor(rule, "non-constant exits of authenticate", nOther, 1)
 	}
-	// oauthCode: cookie issuance dominated by verified membership
-	oc := c.need(rule, "(*z/web.handler).oauthCode")
-	if oc != nil {
-		sites := callsTo(oc, "net/http.SetCookie")
-		c.floor(rule, "SetCookie sites in oauthCode", len(sites), 1)
-		for _, s := range sites {
-			all := true
-			np, complete := pathsTo(oc.Blocks[0], s.Block(), func(p pathAtoms) bool {
-				ok := p.has(func(a atom) bool { return a.pos && isResultOfCall(a.v, 0, "(*z/web.handler).userInOrg") }) &&
-					p.has(func(a atom) bool {
-						m, isNil := atomNilOf(a, func(v ssa.Value) bool { return isResultOfCall(v, 1, "(*z/web.handler).userInOrg") })
-						return m && isNil
-					})
-				if !ok {
-					all = false
-				}
-				return ok
+	// cookie issuance: wherever package web sets a cookie that carries a session
+	// (http.SetCookie), every way to get there — through the function itself and,
+	// for an unexported helper, through each of its call sites — passes
+	// userInOrg()==(true,nil)
+	verified := func(p pathAtoms) bool {
+		return p.has(func(a atom) bool { return a.pos && isResultOfCall(a.v, 0, "(*z/web.handler).userInOrg") }) &&
+			p.has(func(a atom) bool {
+				m, isNil := atomNilOf(a, func(v ssa.Value) bool { return isResultOfCall(v, 1, "(*z/web.handler).userInOrg") })
+				return m && isNil
 			})
-			c.check(rule, "oauthCode: session cookie only for verified org members", s.Pos(), all && complete && np > 0,
-				"every path to http.SetCookie passes userInOrg()==(true,nil)",
-				"a path reaches http.SetCookie (a signed, unexpired session is issued) without userInOrg having returned (true, nil): an unverified caller obtains a valid session")
+	}
+	var reachedVerified func(f *ssa.Function, b *ssa.BasicBlock, depth int) (bool, string)
+	reachedVerified = func(f *ssa.Function, b *ssa.BasicBlock, depth int) (bool, string) {
+		all, why := true, ""
+		np, complete := pathsTo(f.Blocks[0], b, func(p pathAtoms) bool {
+			if verified(p) {
+				return true
+			}
+			// not established inside f: every caller has to establish it
+			if depth < 2 && f.Parent() == nil && f.Object() != nil && !f.Object().Exported() {
+				sites := callSitesOf(c.P, f)
+				if len(sites) > 0 {
+					okAll := true
+					for _, s := range sites {
+						if ok, w := reachedVerified(s.Parent(), s.Block(), depth+1); !ok {
+							okAll = false
+							why = w
+						}
+					}
+					if okAll {
+						return true
+					}
+					all = false
+					return false
+				}
+			}
+			all = false
+			why = "in " + stableName(f)
+			return false
+		})
+		return all && complete && np > 0, why
+	}
+	nSites := 0
+	for _, fn := range c.P.ModFns {
+		if pkgOf(fn) != "z/web" {
+			continue
+		}
+		for _, s := range callsTo(fn, "net/http.SetCookie") {
+			// the xsrf state cookie of requestAuthorization carries no session
+			if stableName(topOf(fn)) == "(*z/web.handler).requestAuthorization" {
+				continue
+			}
+			nSites++
+			c.touch(fn)
+			ok, why := reachedVerified(fn, s.Block(), 0)
+			c.check(rule, "session cookie #"+itoa(nSites)+" is issued only for verified org members", s.Pos(), ok,
+				"every path to http.SetCookie (through each call site of the helper that holds it) passes userInOrg()==(true,nil)",
+				"http.SetCookie is reachable without userInOrg having returned (true, nil) ("+why+"): a signed session cookie with a fresh expiry is handed to a caller whose membership was not (or not yet) verified — replaying it is served without verification")
 		}
 	}
+	c.floor(rule, "session cookie issuance sites in package web", nSites, 1)
 }
 
 func isFieldLoadOrAddr(v ssa.Value, key string) bool {
